@@ -1,4 +1,5 @@
 import FxVerif.Model.C17
+import FxVerif.Model.C17Machine
 import FxVerif.Model.Util
 /-! line-protocol driver for the C17 models: `lake env lean --run Driver/C17.lean < ops.txt`
 
@@ -7,7 +8,13 @@ ops:
   `delta` of `BridgeValidators.PowerDiff` holds before the division by 2^32-1;
 * `supportchains <names,…>` — the registered chain names in any order; answers the sorted list (`GetSupportChains`);
 * `batchfees <token:fee:amount;…>` — the unbatched pool in any order; answers what `GetAllBatchFees` returns: per token
-  the summed fee, summed amount and tx count, sorted by token (`token:fees:amount:count,…`).
+  the summed fee, summed amount and tx count, sorted by token (`token:fees:amount:count,…`);
+* `batchfeesmax <maxElements> <token:baseFee,…|-> <token:fee:amount;…|->` — the unbatched pool in STORE ITERATION order;
+  answers `GetAllBatchFees(ctx, maxElements, minBatchFees)` computed by the machine model (`createBatchFees` with the
+  per-token limit and the base-fee filter, then the scheduled range + sort);
+* `updateoracles <addr:power:online:delegate,…|-> | <old proposal a,b,…|-> | <new a,b,…|->` — `UpdateProposalOracles` on
+  a state with these oracles (store order) and this stored proposal; answers `err:<kind>` or `ok:<unbonded addresses in
+  unbonding order|->` (the machine model with the identity schedule and the regenerated order source).
 -/
 open FxVerif FxVerif.Util FxVerif.Model.C17
 
@@ -32,9 +39,38 @@ def showFees (fs : List (String × Nat × Nat × Nat)) : String :=
   if fs.isEmpty then "-" else
   ",".intercalate (fs.map fun e => s!"{e.1}:{e.2.1}:{e.2.2.1}:{e.2.2.2}")
 
+def parseList (w : String) : List String := if w == "-" then [] else w.splitOn ","
+
+def parseOracle (e : String) : Option Oracle :=
+  match e.splitOn ":" with
+  | [a, p, o, d] =>
+    match p.toNat?, d.toNat? with
+    | some p, some d => some ⟨a, p, o == "1", d⟩
+    | _, _ => none
+  | _ => none
+
+def emptySt (os : List Oracle) (old : List String) : St := ⟨os, old, 1, [], [], 0⟩
+
+def showList (l : List String) : String := if l.isEmpty then "-" else ",".intercalate l
+
 def step (st : Unit) (line : String) : Unit × String :=
   match words line with
   | "reset" :: _ => (st, "ok")
+  | ["updateoracles", os, "|", old, "|", new] =>
+    match (parseList os).mapM parseOracle with
+    | some os =>
+      match (exec Sched.id (emptySt os (parseList old)) (.updateOracles (parseList new))).2 with
+      | .err e => (st, "err:" ++ e)
+      | .unbonded l => (st, "ok:" ++ showList (l.map (·.1)))
+      | _ => (st, "bad-op")
+    | none => (st, "bad-op")
+  | ["batchfeesmax", mx, base, pool] =>
+    match mx.toNat?, parsePairs base, (if pool == "-" then some [] else (pool.splitOn ";").mapM parseFee) with
+    | some mx, some base, some es =>
+      match (exec Sched.id (emptySt [] []) (.batchFees (es.map fun e => ⟨e.1, e.2.1, e.2.2⟩) mx base)).2 with
+      | .fees fs => (st, showFees fs)
+      | _ => (st, "bad-op")
+    | _, _, _ => (st, "bad-op")
   | ["powerdiff", b, "|", c] =>
     match parsePairs b, parsePairs c with
     | some b, some c => (st, toString (powerDiffNumerator b c))
